@@ -10,6 +10,7 @@ import (
 	"github.com/deepteams/webp/verifharness/ref/cref"
 	"github.com/deepteams/webp/verifharness/ref/riffwalk"
 	"github.com/deepteams/webp/verifharness/ref/vp8hdr"
+	"github.com/deepteams/webp/verifharness/ref/vp8lstrict"
 	"github.com/deepteams/webp/verifharness/ref/xref"
 	"github.com/deepteams/webp/verifharness/ref/xvp8l"
 )
@@ -69,6 +70,12 @@ func FuzzC03(f *testing.F) {
 		bits := uint32(data[1]) | uint32(data[2])<<8 | uint32(data[3])<<16 | uint32(data[4])<<24
 		w, h := int(bits&0x3fff)+1, int(bits>>14&0x3fff)+1
 		if w*h > fuzzMaxPixels {
+			return
+		}
+		// Domain gate: only bytes that /verif's strict validator accepts are "syntactically valid VP8L".
+		// Lenient decoders accept degenerate constructs in different ways and can still agree on the
+		// pixels by accident (DESIGN.md 13.8), so their agreement alone does not establish validity.
+		if vp8lstrict.Validate(data, gen.DistMapXY(), fuzzMaxPixels) != nil {
 			return
 		}
 		d := diffStill(&stillParts{File: xref.Simple("VP8L", data), Bitstream: data, Lossless: true, W: w, H: h, RawToWitness: true})
